@@ -120,6 +120,20 @@ func Main(profile string) {
 			cfg.Count("regime=" + string(reg))
 		}
 	}
+	if profile == "c09" {
+		nRM, nOS := 10, 12
+		if cfg.Thorough() {
+			nRM, nOS = 200, 240
+		}
+		for i := 0; i < nRM; i++ {
+			r := rng.Fork()
+			emit("rmf", append([]string{"STEP"}, GenRaisedMaxFrame(r, i)...))
+		}
+		for i := 0; i < nOS; i++ {
+			r := rng.Fork()
+			emit("oset", append([]string{"STEP"}, GenOtherSettings(r, i)...))
+		}
+	}
 	for i := 0; i < nE2E; i++ {
 		r := rng.Fork()
 		d := []int{0, 1, 2, 3, 5, 9, 64}[r.Intn(7)]
